@@ -288,7 +288,12 @@ func (ev *Evidence) add(h HarnessSpec, hr *HarnessResult, vars map[string]int) {
 		"harness": h.Func, "pkg": h.Pkg, "what": h.What, "bounds_vars": vars, "paths": hr.Paths, "path_ends": hr.Ends, "obligations": hr.Obligations,
 		"discharged": hr.Discharged, "by_assertion": byLabel, "reach_witnesses": hr.Reached, "required_reach": h.Reach,
 		"panic_paths": hr.Panics, "queries": hr.Queries, "query_cache_hits": hr.CacheHits, "solver_s": round2(hr.SolverS), "wall_s": round2(hr.WallS),
-		"unwind_bound": func() int { if h.Unwind > 0 { return h.Unwind }; return defaultCfg().Unwind }(),
+		"unwind_bound": func() int {
+			if h.Unwind > 0 {
+				return h.Unwind
+			}
+			return defaultCfg().Unwind
+		}(),
 	})
 	for _, s := range hr.Samples {
 		if len(ev.Samples) < 4 {
@@ -325,24 +330,24 @@ func (ev *Evidence) write(wall float64, violations int) {
 		samples = []interface{}{"no path completed"}
 	}
 	cov := map[string]interface{}{
-		"explanation":          ev.spec.Explanation,
-		"evaluations":          ev.Paths,
-		"distinct_nontrivial":  ev.Nontrivial,
-		"rule":                 "evaluations = symbolic execution paths of the real SSA explored to completion (each path covers every value of its solver variables); distinct_nontrivial = assertion instances on those paths whose negation was not syntactically false and was sent to the solver and found unsat (each is a distinct (path, assertion) pair)",
-		"obligations":          ev.Obligations,
-		"discharged":           ev.Discharged,
-		"samples":              samples,
-		"exhaustive":           len(ev.Inconclusive) == 0,
-		"bounds":               ev.spec.Bounds,
-		"outside_claim":        ev.spec.Outside,
-		"harnesses":            ev.Harnesses,
-		"functions_encoded":    fns,
-		"env_models_hit":       ev.Models,
-		"solver":               map[string]interface{}{"name": solverBin, "queries": ev.Queries, "solver_s": round2(ev.SolverS)},
-		"inconclusive":         ev.Inconclusive,
-		"known_findings_seen":  ev.Known,
+		"explanation":            ev.spec.Explanation,
+		"evaluations":            ev.Paths,
+		"distinct_nontrivial":    ev.Nontrivial,
+		"rule":                   "evaluations = symbolic execution paths of the real SSA explored to completion (each path covers every value of its solver variables); distinct_nontrivial = assertion instances on those paths whose negation was not syntactically false and was sent to the solver and found unsat (each is a distinct (path, assertion) pair)",
+		"obligations":            ev.Obligations,
+		"discharged":             ev.Discharged,
+		"samples":                samples,
+		"exhaustive":             len(ev.Inconclusive) == 0,
+		"bounds":                 ev.spec.Bounds,
+		"outside_claim":          ev.spec.Outside,
+		"harnesses":              ev.Harnesses,
+		"functions_encoded":      fns,
+		"env_models_hit":         ev.Models,
+		"solver":                 map[string]interface{}{"name": solverBin, "queries": ev.Queries, "solver_s": round2(ev.SolverS)},
+		"inconclusive":           ev.Inconclusive,
+		"known_findings_seen":    ev.Known,
 		"counterexample_replays": ev.Replays,
-		"encoding":             "regenerated from /repo working tree by go/packages+go/ssa on this run",
+		"encoding":               "regenerated from /repo working tree by go/packages+go/ssa on this run",
 	}
 	doc := map[string]interface{}{
 		"property_id": ev.spec.ID, "tier": ev.tier, "seed": ev.seed, "level": "other", "coverage": cov,
